@@ -50,7 +50,7 @@ def process_signature(app, what, name, obj, options,
         parent, obj = fetch_dotted_name(name)
     except AttributeError:
         return sig, return_annotation
-    if isinstance(obj, instancemethod): # python 2 unbound methods
+    if isinstance(obj, instancemethod) and obj.__self__ is None: # python 2 unbound methods
         obj = obj.__func__
     if isinstance(parent, type) and callable(obj):
         try:
